@@ -47,6 +47,11 @@ var (
 		"\x00", "a", "\n", "\r", "[", "]", "(", ")", "`", "é", " ", "\\")
 	XNulRef = sp("X-nulref", "NUL inside link labels, destinations and titles of definitions and links",
 		"\x00", "a", "[", "]", "]: ", "/u", "\n", "(", ")", " ", "\"")
+	// XPhrase works at the level of whole constructs, so that a handful of tokens
+	// reaches interactions between complete emphasis, code spans, links, images,
+	// raw tags, entities, references and their definitions inside containers.
+	XPhrase = sp("X-phrase", "whole inline constructs and container prefixes",
+		"*a*", "**b**", "`c`", "[d](/e)", "![f](/g \"h\")", "<i>", "&amp;", "[r]", "[r]: /u\n", "\n", "> ", "- ", "\\\n", "x", " ")
 	XEol = sp("X-eol", "CR / CRLF / LF paths",
 		"a", "\r", "\n", " ", "\\", "`", ">", "-", "\t")
 	// Inj: attribute-injection alphabet for C07.
@@ -73,7 +78,7 @@ var (
 )
 
 // All lists every declared space (for the start-up self test).
-var All = []Space{B, I, L, XHead, XRef, XLink, XCode, XHTML, XEmph, XList, XNul, XNulRef, XEol, Inj, XEnt, XWs, XNest, XMlRef, Emph5, Emph4, Emph3}
+var All = []Space{B, I, L, XHead, XRef, XLink, XCode, XHTML, XEmph, XList, XNul, XNulRef, XPhrase, XEol, Inj, XEnt, XWs, XNest, XMlRef, Emph5, Emph4, Emph3}
 
 // ByName finds a space.
 func ByName(name string) (Space, bool) {
